@@ -45,7 +45,7 @@ func (f *Numerator) Call(s *slip.Scope, args slip.List, depth int) (result slip.
 	case slip.Fixnum, *slip.Bignum:
 		result = ta
 	case *slip.Ratio:
-		result = (*slip.Bignum)((*big.Rat)(ta).Num())
+		result = slip.IntegerFromBig((*big.Rat)(ta).Num())
 	default:
 		slip.TypePanic(s, depth, "rational", args[0], "rational")
 	}
